@@ -10,7 +10,7 @@
 EXTENDS G3DUniv
 
 PolyhedronNames == {"tet", "tet2", "cube", "box", "obl", "prism", "pyr", "octa", "wedge", "pprism", "ppyr", "hprism"}
-PolygonNames    == {"tri", "triObl", "sq", "rectObl", "trap", "par", "pent", "pentObl", "hex", "hexObl"}
+PolygonNames    == {"tri", "triObl", "sq", "rectObl", "trap", "par", "pent", "pentObl", "hex", "hexObl", "stripH", "stripV", "triUp", "triDown"}
 
 Pent2 == {<<0, 0>>, <<2, 0>>, <<3, 1>>, <<2, 2>>, <<0, 2>>}
 Hex2  == {<<1, 0>>, <<2, 0>>, <<3, 1>>, <<2, 2>>, <<1, 2>>, <<0, 1>>}
@@ -41,6 +41,11 @@ VertsOf(name) ==
     [] name = "pentObl" -> { <<p[1], p[2], p[1]>> : p \in Pent2 }
     [] name = "hex"     -> Lift(Hex2, 0)
     [] name = "hexObl"  -> {<<2,1,0>>, <<1,2,0>>, <<0,2,1>>, <<0,1,2>>, <<1,0,2>>, <<2,0,1>>}
+    \* coplanar pairs that overlap although no vertex of either lies in the other (plus sign, hexagram)
+    [] name = "stripH"  -> {<<-1,0,0>>, <<3,0,0>>, <<3,1,0>>, <<-1,1,0>>}
+    [] name = "stripV"  -> {<<1,-1,0>>, <<2,-1,0>>, <<2,3,0>>, <<1,3,0>>}
+    [] name = "triUp"   -> {<<0,0,0>>, <<4,0,0>>, <<2,3,0>>}
+    [] name = "triDown" -> {<<0,2,0>>, <<4,2,0>>, <<2,-1,0>>}
 
 \* the body with the given name, all coordinates multiplied by s (so that half-lattice features are integral)
 ScaledVerts(name, s) == { LP(Scale(s, v)) : v \in VertsOf(name) }
